@@ -127,7 +127,7 @@ def _build_lib(variant="plain"):
         # remove objects of deleted sources
         keep = set(os.path.basename(c)[:-4] + ".o" for c in cpps)
         for o in os.listdir(obj):
-            if o not in keep:
+            if o not in keep and o.endswith(".o"):     # (coverage builds keep their .gcno/.gcda notes next to the objects)
                 os.remove(os.path.join(obj, o))
         if os.path.exists(lib):
             os.remove(lib)
